@@ -117,19 +117,20 @@ func Clean(name string) string {
 
 // GenOpts steers the archive generator.
 type GenOpts struct {
-	MaxEntries int
-	ChunkSize  int  // file sizes are drawn around multiples of it
-	Hardlinks  bool // hardlink chains
-	Devices    bool // char / block / fifo
-	Dups       bool // duplicate names (same kind class)
-	ManyChunks bool // some files have 9..20 chunks (chunk offsets on both sides of 64, 128, ...: varint key order != numeric order)
-	DupLinks   bool // with Dups: a hardlink may replace an earlier non-directory of the same name (never a link target)
-	Spellings  bool // "./", "/", "../" prefixes and trailing slashes
-	Xattrs     bool
-	RootEntry  bool // may contain an entry for the root itself ("./")
-	Whiteouts  bool // OCI whiteouts and opaque markers (C07)
-	BigIDs     bool
-	MaxFile    int // cap on file size (0 = 3*ChunkSize+1)
+	MaxEntries   int
+	ChunkSize    int  // file sizes are drawn around multiples of it
+	Hardlinks    bool // hardlink chains
+	Devices      bool // char / block / fifo
+	Dups         bool // duplicate names (same kind class)
+	ExtremeTimes bool // some mtimes lie outside what an int64 of nanoseconds can hold (year 1601, year 9999)
+	ManyChunks   bool // some files have 9..20 chunks (chunk offsets on both sides of 64, 128, ...: varint key order != numeric order)
+	DupLinks     bool // with Dups: a hardlink may replace an earlier non-directory of the same name (never a link target)
+	Spellings    bool // "./", "/", "../" prefixes and trailing slashes
+	Xattrs       bool
+	RootEntry    bool // may contain an entry for the root itself ("./")
+	Whiteouts    bool // OCI whiteouts and opaque markers (C07)
+	BigIDs       bool
+	MaxFile      int // cap on file size (0 = 3*ChunkSize+1)
 }
 
 var dirPool = []string{"a", "b", "a/c", "a/c/d", "b/e"}
@@ -203,6 +204,9 @@ func Gen(t *rapid.T, o GenOpts) Archive {
 			e.Gname = rapid.SampledFrom([]string{"root", "staff"}).Draw(t, "gname")
 		}
 		e.MTime = rapid.SampledFrom([]int64{0, 1, 1600000000, 1600000000, 1700000001, 2147483653, 4102444800}).Draw(t, "mtime")
+		if o.ExtremeTimes && rapid.IntRange(0, 7).Draw(t, "extremetime") == 0 {
+			e.MTime = rapid.SampledFrom([]int64{-11644473600, 253402300799, -2208988800}).Draw(t, "xmtime")
+		}
 		if rapid.IntRange(0, 3).Draw(t, "subsec") == 0 {
 			e.MTimeNs = rapid.SampledFrom([]int{400000000, 600000000, 1, 999999999, 500000000}).Draw(t, "ns")
 		}
